@@ -743,3 +743,17 @@ CONTROLS += [
             return True
         return False''')),
 ]
+
+CONTROLS += [
+    pos("group suffix applied after descending into the group", ["C02"], ["R2.7"],
+        (P, '''                # return the inner toks and recurse
+                # -> this could return some weird results for invalid code, but
+                #    we don't support that anyways so it's fine?
+                self.lex.return_tokens(toks[1:-1])
+                dtype = self._parse_cv_ptr_or_fn(dtype, nonptr_fn)
+                break''', '''                self.lex.return_tokens(toks[1:-1])
+                dtype = self._parse_cv_ptr_or_fn(dtype, nonptr_fn)
+                if aptok and aptok.type == "[":
+                    dtype = self._parse_array_type(aptok, dtype)
+                break''')),
+]
